@@ -179,6 +179,13 @@ Proof.
   apply make_from_good with (Q := Q) in H; auto. apply HI.
 Qed.
 
+Lemma make_from_obj_good (Q : slot -> Prop) p c src st' o : make_from_obj p c src = (st', o) -> GInv Q src ->
+  GInv Q st' /\ cap st' = c /\ o <> OutOfStorage /\ o <> Skipped /\ (o = Done \/ o = Raised \/ o = Faulted).
+Proof.
+  intros H HI. unfold make_from_obj in H. rewrite (iterate_abs Q) in H by auto.
+  apply make_from_good with (Q := Q) in H; auto. apply HI.
+Qed.
+
 Lemma move_ctor_good (Q : slot -> Prop) src : GInv Q src ->
   GInv Q (fst (move_ctor src)) /\ GInv Q (snd (move_ctor src)) /\
   cap (fst (move_ctor src)) = cap src /\ cap (snd (move_ctor src)) = cap src.
